@@ -349,6 +349,11 @@ def seq_correspondence(run, harness, mode, label, args, corpus_files=(), overlay
             lines = [r[0] for r in seqs[si][:oi + 1]]
             small = shrink(run, harness, mode, lines, extra, cmpf)
             im, mo, sp = replay_seq(run, harness, mode, small, extra)
+            for _ in range(8):
+                # black-box runs draw a fresh hash seed per process: keep a replay that shows the failure
+                if cmpf(im, mo, sp):
+                    break
+                im, mo, sp = replay_seq(run, harness, mode, small, extra)
             # first line that still differs in the final replay (black-box runs use the real, per-process
             # random hash seed, so a layout-dependent failure may move between replays)
             idx = len(small) - 1
